@@ -347,3 +347,20 @@ Proof.
   pose proof (uvarint_cnt_le b3) as [C3 X3]. rewrite U3 in C3, X3. cbn [fst snd] in *.
   split; [change (2 + c1 + c2 + c3 <= Z.of_nat (length buf))%Z; lia|]. split; [apply N.mod_lt; discriminate|]. split; [apply N.mod_lt; discriminate|exact X3].
 Qed.
+
+(* ---- ValueStruct.Decode on arbitrary buffers ---- *)
+(* ValueStruct.Decode on ANY buffer: when it does not panic the value is a suffix of the buffer
+   (nothing is invented), the meta bytes are the first two bytes and the expiry fits 64 bits *)
+Lemma vs_decode_bounds b v : vs_decode b = Some v ->
+  (exists p, b = p ++ vs_value v) /\ vs_expires v < two64 /\ firstn 2 b = [vs_meta v; vs_umeta v].
+Proof.
+  unfold vs_decode. destruct b as [|m [|u r]]; try discriminate.
+  destruct (uvarint r) as [ex sz] eqn:U.
+  destruct (slice_from (m :: u :: r) (2 + sz)) as [val|] eqn:S; [|discriminate].
+  intros [= <-]. cbn [vs_value vs_expires vs_meta vs_umeta].
+  split; [|split; [|reflexivity]].
+  - unfold slice_from in S.
+    destruct ((2 + sz <? 0)%Z || (Z.of_nat (length (m :: u :: r)) <? 2 + sz)%Z); [discriminate|].
+    injection S as <-. exists (firstn (Z.to_nat (2 + sz)) (m :: u :: r)). symmetry. apply firstn_skipn.
+  - pose proof (uvarint_cnt_le r) as [_ X]. now rewrite U in X.
+Qed.
